@@ -16,7 +16,7 @@ theorem not_ok_of_failed {p : State σ κ × Res} {s : State σ κ} (h : Failed 
 
 /-- In every step the supply changes by exactly the minted / burned / issued / granted amount
 of that step (0 for all other operations and for errors). -/
-theorem supply_step {s : State σ κ} (hw : WF c s) (hm : MainOK s) (op : Op σ) (hop : GenesisOK op) :
+theorem supply_step {s : State σ κ} (hw : WF c s) (hm : MainOK s) (op : Op σ) :
     supply (step c s op).1 = supply s + opSupply op (step c s op).2 := by
   cases op with
   | transfer f t amt =>
@@ -35,13 +35,13 @@ theorem supply_step {s : State σ κ} (hw : WF c s) (hm : MainOK s) (op : Op σ)
   | genesis a amt =>
     rcases basic_ok_or_failed_genesis c s a amt with h | h
     · simp only [step]; rw [h.1, opSupply_err _ _ h.2]; omega
-    · simp only [step]; rw [(genesis_effect c hw hm a amt hop h).1, h]; simp [opSupply]
+    · simp only [step]; rw [(genesis_effect c hw hm a amt h).1, h]; simp [opSupply]
   | genesisExec a amt e =>
     simp only [step, genesisExec]
     rcases basic_ok_or_failed_genesis c s e amt with h | h
     · rw [if_pos (not_ok_of_failed h), h.1, opSupply_err _ _ h.2]; omega
     · rw [if_neg (by simp [h])]
-      have e1 := (genesis_effect c hw hm e amt hop h).1
+      have e1 := (genesis_effect c hw hm e amt h).1
       split
       · simp only [opSupply]; exact e1
       · next h2 =>
@@ -85,12 +85,31 @@ theorem supply_step {s : State σ κ} (hw : WF c s) (hm : MainOK s) (op : Op σ)
     simp only [step, execDepositFrozen]
     split
     · simp [opSupply]
-    · rcases basic_ok_or_failed_execIssue c s e amt with h | h
-      · rw [if_pos (not_ok_of_failed h), h.1, opSupply_err _ _ h.2]; omega
-      · rw [if_neg (by simp [h])]
-        have e1 := (execIssue_effect c hw hm e amt h).1
-        simp only [opSupply]
-        rw [← e1]; rfl
+    · split
+      · simp [opSupply]
+      · rcases basic_ok_or_failed_execIssue c s e amt with h | h
+        · rw [if_pos (not_ok_of_failed h), h.1, opSupply_err _ _ h.2]; omega
+        · rw [if_neg (by simp [h])]
+          have e1 := (execIssue_effect c hw hm e amt h).1
+          rw [supply_of_main_eq (main_depositFrozen2 c _ a e amt), e1]
+          rcases basic_ok_or_failed_depositFrozen2 c (execIssue c s e amt).1 a e amt with h2 | h2
+          · exfalso
+            -- cannot fail: checked before the issue (see `step_err_unchanged`)
+            have herr : (step c s (.execDepositFrozen a e amt)).2.isErr = true := by
+              simp only [step, execDepositFrozen]
+              rw [if_neg (by assumption), if_neg (by assumption), if_neg (by simp [h])]
+              exact h2.2
+            have hst := step_err_unchanged c s (.execDepositFrozen a e amt) herr
+            simp only [step, execDepositFrozen] at hst
+            rw [if_neg (by assumption), if_neg (by assumption), if_neg (by simp [h])] at hst
+            have hsup : supply (depositFrozen2 c (execIssue c s e amt).1 a e amt).1 = supply s := by rw [hst]
+            rw [supply_of_main_eq (main_depositFrozen2 c _ a e amt), e1] at hsup
+            have hca : 0 < amt := by
+              rcases execIssue_cases c s e amt with hf | ⟨nb, hca, _, _⟩
+              · exact absurd h (not_ok_of_failed hf)
+              · exact ((checkAmount_iff amt).1 hca).1
+            omega
+          · rw [h2]; simp [opSupply]
   | execIssue e amt =>
     rcases basic_ok_or_failed_execIssue c s e amt with h | h
     · simp only [step]; rw [h.1, opSupply_err _ _ h.2]; omega
